@@ -16,6 +16,7 @@ from ..tlc import MachineryError
 from ..util import pmap, quiet, split
 
 OPTS = {'storage': ['dense', 'rowscols', 'coo', 'csr', 'csc', 'diag', 'matfree'], 'cyc_frac': .3, 'voi_scaling': False, 'bil': .2}
+STACK = {'storage': ['dense', 'rowscols', 'coo', 'csr', 'csc', 'diag'], 'depth': 2, 'ncomp': 5, 'cyc': False, 'stack_p': 1.}
 
 
 def ivec(rng, n):
@@ -28,10 +29,15 @@ def q(v, rtol=1e-9):
 
 def observe(seed):
     from openmdao.core.analysis_error import AnalysisError
-    md, ref, rng = gen_model(seed, OPTS)
+    opts = OPTS
+    if seed % 3 == 0:
+        opts = dict(OPTS, scaling=True)          # solver scaling (ref / ref0 / res_ref alone): the duality of the scaled operators
+    elif seed % 5 == 0:
+        opts = dict(OPTS, **STACK)               # assembled jacobian below a Krylov parent: scoped products
+    md, ref, rng = gen_model(seed, opts)
     if md is None:
         return {'skip': 'rejected'}
-    adj, jv, kinds = [], [], []
+    adj, jv, kinds, eqs, eqkinds = [], [], [], [], []
     # results of ScipyKrylov solves are accurate to the GMRES tolerance only: they are quantised at 1e-6 (DESIGN.md C01)
     kry = any((sv.get('ln') or {}).get('name') == 'krylov' for sv in md['solvers'].values())
     qs = (lambda v: q(v, 1e-6)) if kry else q
@@ -111,6 +117,35 @@ def observe(seed):
             adj.append({'v': q(np.concatenate([o_seed] + [i_seeds[i['id']] for i in ext_in])), 'w': q(r_seed),
                         'av': q(av), 'atw': q(np.concatenate([ato] + ati))})
             kinds.append('apply_linear:' + gp)
+            # the same product restricted to a scope of inputs: out-of-scope inputs are ignored (fwd) / left alone (rev),
+            # i.e. A_s = A P_s; observed as  apply(scope, v) = apply(no scope, P_s v)  and  apply^T(scope, w) = P_s apply^T(w)
+            if ext_in and len(ext_in) >= 1:
+                keep = [i for i in ext_in if rng.random() < .5]
+                scope = frozenset(ob.in_path(md, i['id']) for i in keep) | \
+                    frozenset(ob.in_path(md, i['id']) for i in md['ins'] if i['comp'] in cids and i not in ext_in)
+
+                def fwd(scope_in, seeds):
+                    g._doutputs.set_val(o_seed)
+                    g._dinputs.set_val(0.0)
+                    for i in ext_in:
+                        g._dinputs[ob.in_path(md, i['id'])[len(pre):]] = seeds[i['id']].reshape(i['shape'])
+                    g._dresiduals.set_val(0.0)
+                    g.run_apply_linear('fwd', None, scope_in)
+                    return g._dresiduals.asarray(copy=True)
+                proj = {i['id']: (i_seeds[i['id']] if i in keep else np.zeros_like(i_seeds[i['id']])) for i in ext_in}
+                a1 = fwd(scope, i_seeds)
+                a2 = fwd(None, proj)
+                eqs.append({'a': q(a1), 'b': q(a2)})
+                eqkinds.append('scoped apply_linear fwd:' + gp)
+                g._dresiduals.set_val(r_seed)
+                g._doutputs.set_val(0.0)
+                g._dinputs.set_val(0.0)
+                g.run_apply_linear('rev', None, scope)
+                b1 = np.concatenate([g._doutputs.asarray(copy=True)] +
+                                    [np.ravel(g._dinputs[ob.in_path(md, i['id'])[len(pre):]]).copy() for i in ext_in])
+                b2 = np.concatenate([ato] + [x if i in keep else np.zeros_like(x) for i, x in zip(ext_in, ati)])
+                eqs.append({'a': q(b1), 'b': q(b2)})
+                eqkinds.append('scoped apply_linear rev:' + gp)
             # solve_linear (a group below a solver that never recurses has not been linearized yet)
             if gp != '':
                 g.run_linearize()
@@ -131,7 +166,8 @@ def observe(seed):
         import traceback
         return {'exc': '%s: %s' % (type(e).__name__, e), 'tb': traceback.format_exc()[-1500:], 'md': md}
     case = so.case_record(md, ref, [], [], adj, jv)
-    return {'case': case, 'md': md, 'kinds': kinds, 'seed': seed}
+    case['eqs'] = eqs
+    return {'case': case, 'md': md, 'kinds': kinds, 'eqkinds': eqkinds, 'seed': seed}
 
 
 def _worker(seeds):
@@ -163,6 +199,12 @@ def run(ctx):
             if not ok:
                 ctx.violation({'seed': r['seed'], 'operator': r['kinds'][j], 'model': r['md']}, '<w, A v> = <A^T w, v>',
                               r['case']['adj'][j], 'adjoint identity fails for ' + r['kinds'][j].split(':')[0])
+        for j, ok in enumerate(vv['eqs']):
+            nops += 1
+            ctx.note_nontrivial('%d:%s' % (r['seed'], r['eqkinds'][j]))
+            if not ok:
+                ctx.violation({'seed': r['seed'], 'operator': r['eqkinds'][j], 'model': r['md']}, 'product with a scope = product of the projected argument',
+                              r['case']['eqs'][j], 'scoped product differs for ' + r['eqkinds'][j].split(':')[0])
         for j, ok in enumerate(vv['jv']):
             nops += 1
             if not ok:
@@ -174,7 +216,8 @@ def run(ctx):
     for r in cases[:2]:
         ctx.sample({'seed': r['seed'], 'operators': r['kinds'], 'first': r['case']['adj'][0] if r['case']['adj'] else None})
     ctx.rule = ('generated models; integer seed vectors in -3..3; operators: compute_jacvec_product fwd/rev (exact J v and J^T w and '
-                'the identity), run_apply_linear fwd/rev and run_solve_linear fwd/rev of every group; non-trivial = distinct '
+                'the identity), run_apply_linear fwd/rev (also restricted to a scope of inputs) and run_solve_linear fwd/rev of every group; '
+                'a third of the models carry solver scaling, some are three-level solver stacks; non-trivial = distinct '
                 '(model, operator) pairs judged')
     ctx.assumptions = ['affine models (exact arithmetic); seeds are integers so all products are small rationals',
                        'problems are set up in rev mode so that both transfer directions exist']
